@@ -15,11 +15,16 @@ RECURSIVE LeafFn(_, _, _)
 LeafFn(k, m, j) ==
     IF j > Len(k.leaves) THEN (<<0, -1>> :> W0)
     ELSE (<<k.leaves[j].fd, k.leaves[j].off>> :>
-             WZext(LoadBytes(m, Rg("arr", k.leaves[j].fd, <<>>), k.leaves[j].off, k.leaves[j].len), 8))
+             WZext(IF "key" \in DOMAIN k.leaves[j]           \* a hash-map variable: the entry of its key
+                   THEN LoadBytes(m, Rg("hash", k.leaves[j].fd, k.leaves[j].key), 0, k.leaves[j].len)
+                   ELSE LoadBytes(m, Rg("arr", k.leaves[j].fd, <<>>), k.leaves[j].off, k.leaves[j].len), 8))
          @@ LeafFn(k, m, j + 1)
 Leaves(k) == LeafFn(k, Mem(k), 1)
 
-Observed(k, f) == LoadBytes(f.m, Rg("arr", k.dst.fd, <<>>), k.dst.off, k.dst.size)
+Observed(k, f) == IF "key" \in DOMAIN k.dst
+                  THEN (IF Rg("hash", k.dst.fd, k.dst.key) \in DOMAIN f.m
+                        THEN LoadBytes(f.m, Rg("hash", k.dst.fd, k.dst.key), 0, k.dst.size) ELSE <<"absent">>)
+                  ELSE LoadBytes(f.m, Rg("arr", k.dst.fd, <<>>), k.dst.off, k.dst.size)
 
 (* verdict of one case; f = Final(k), L = Leaves(k), w = the narrowest width involved *)
 VerdictOf(k, f, L, w) ==
